@@ -1,210 +1,5 @@
-// C12 side pass — keeps the scheduler's assumption honest. The vsched exploration (s_c12_handles) sees only hooked
-// synchronisation points; an access that is *not* one of them (a plain ++ on a reference count, a missing lock around a
-// payload access) is atomic to it. This part runs the same program tuples FREE-RUNNING under ThreadSanitizer: two handle
-// or counter operations of different worker threads are never ordered by happens-before unless the library orders them
-// (thread creation orders main -> worker only), so an unsynchronised access pair is reported whatever the OS schedule was.
-// It is not an exploration and decides nothing by itself: it reports "data_race" when the precondition of the
-// scheduler-based enumeration (all shared accesses are atomic or lock-protected) is broken.
-#include <asl/Array.h>
-#include <asl/Map.h>
-#include <asl/HashMap.h>
-#include <asl/Pointer.h>
-#include <asl/Shared.h>
-#include <asl/Thread.h>
-#include <asl/Mutex.h>
-#include "vf.h"
-using namespace asl;
-using vf::fmt;
-
-extern "C" {
-int __tsan_get_report_data(void* report, const char** description, int* count, int* stack_count, int* mop_count, int* loc_count, int* mutex_count, int* thread_count, int* unique_tid_count, void** sleep_trace, unsigned long trace_size);
-int __tsan_get_report_mop(void* report, unsigned long idx, int* tid, void** addr, int* size, int* write, int* atomic, void** trace, unsigned long trace_size);
-}
-static volatile int g_reports;
-static char g_what[160];
-extern "C" void __tsan_on_report(void* report) {
-	const char* d = 0; int count, sc, mc, lc, mtc, tc, ut; void* sl[1];
-	__tsan_get_report_data(report, &d, &count, &sc, &mc, &lc, &mtc, &tc, &ut, sl, 1);
-	if (!g_reports && d) { snprintf(g_what, sizeof g_what, "%s", d); }
-	__atomic_fetch_add(&g_reports, 1, __ATOMIC_RELAXED);
-}
-extern "C" const char* __tsan_default_options() { return "halt_on_error=0:exitcode=0:report_signal_unsafe=0:history_size=4:die_after_fork=0:print_summary=0"; }
-
-// payload whose life cycle is counted with relaxed atomics (no happens-before edges added, no race of our own)
-static int g_ctor, g_dtor, g_bad;
-static inline void bump(int* p) { __atomic_fetch_add(p, 1, __ATOMIC_RELAXED); }
-struct Tracked {
-	int magic; int* heap;
-	Tracked() : magic(0x600d), heap(new int(7)) { bump(&g_ctor); }
-	Tracked(const Tracked& o) : magic(0x600d), heap(new int(*o.heap)) { bump(&g_ctor); }
-	Tracked& operator=(const Tracked& o) { *heap = *o.heap; return *this; }
-	~Tracked() { if (magic != 0x600d) bump(&g_bad); magic = 0xdead; delete heap; bump(&g_dtor); }
-	bool operator==(const Tracked& o) const { return *heap == *o.heap; }
-	bool operator!=(const Tracked& o) const { return !(*this == o); }
-	bool operator<(const Tracked&) const { return false; }
-};
-ASL_SMART_CLASS(Obj, SmartObject) { public: Tracked t; ASL_SMART_INNER_DEF(Obj); };
-class Obj : public SmartObject { public: ASL_SMART_DEF(Obj, SmartObject) };
-
-template <class H> struct HK;
-template <> struct HK<Array<Tracked> > { static Array<Tracked> make() { Array<Tracked> a; a << Tracked(); return a; } static bool alive(const Array<Tracked>& h) { return h.length() == 1 && h[0].magic == 0x600d; } static const char* name() { return "Array<Tracked>"; } };
-template <> struct HK<Map<int, Tracked> > { static Map<int, Tracked> make() { Map<int, Tracked> m; m[1] = Tracked(); return m; } static bool alive(const Map<int, Tracked>& h) { return h.length() == 1 && h[1].magic == 0x600d; } static const char* name() { return "Map<int,Tracked>"; } };
-template <> struct HK<HashMap<int, int> > { static HashMap<int, int> make() { HashMap<int, int> m(4); m[1] = 5; m[5] = 6; return m; } static bool alive(const HashMap<int, int>& h) { return h.length() == 2 && h[5] == 6; } static const char* name() { return "HashMap<int,int>"; } };
-template <> struct HK<Shared<Tracked> > { static Shared<Tracked> make() { return Shared<Tracked>(new Tracked()); } static bool alive(const Shared<Tracked>& h) { return h->magic == 0x600d; } static const char* name() { return "Shared<Tracked>"; } };
-template <> struct HK<Obj> { static Obj make() { return Obj(); } static bool alive(const Obj& h) { return h._()->t.magic == 0x600d; } static const char* name() { return "SmartObject-derived"; } };
-
-enum Op { COPY, ASSIGN_LO, ASSIGN_OL, DROP_L, DROP_O, FRESH };
-static const char* OPN[] = { "local=copy(own)", "local=own", "own=local", "drop local", "drop own", "own=fresh object" };
-typedef std::vector<int> Prog;
-static void genProgs(int maxLen, bool own, bool local, Prog cur, std::vector<Prog>& out) {
-	out.push_back(cur);
-	if ((int)cur.size() == maxLen) return;
-	for (int op = 0; op < 6; op++) {
-		bool ok = op == COPY ? (own && !local) : op == ASSIGN_LO || op == ASSIGN_OL ? (own && local) : op == DROP_L ? local : own;
-		if (!ok) continue;
-		if (op == FRESH && !cur.empty() && cur.back() == FRESH) continue;
-		Prog n = cur; n.push_back(op);
-		genProgs(maxLen, op == DROP_O ? false : own, op == COPY ? true : op == DROP_L ? false : local, n, out);
-	}
-}
-static std::string progStr(const Prog& p) { std::string s; for (size_t i = 0; i < p.size(); i++) s += (i ? "; " : "") + std::string(OPN[p[i]]); return s.empty() ? "(nothing)" : s; }
-
-static int g_go; // start line: relaxed, so it adds no happens-before edge
-template <class H>
-struct Worker : public Thread {
-	H* own; H* local; const Prog* prog; int early;
-	Worker() : own(0), local(0), prog(0), early(0) {}
-	void check() { if ((own && !HK<H>::alive(*own)) || (local && !HK<H>::alive(*local))) early++; }
-	void run() {
-		for (int spin = 0; spin < 200000 && !__atomic_load_n(&g_go, __ATOMIC_RELAXED); spin++) {}
-		for (size_t i = 0; i < prog->size(); i++) {
-			switch ((*prog)[i]) {
-			case COPY: local = new H(*own); break;
-			case ASSIGN_LO: *local = *own; break;
-			case ASSIGN_OL: *own = *local; break;
-			case DROP_L: delete local; local = 0; break;
-			case DROP_O: delete own; own = 0; break;
-			case FRESH: *own = HK<H>::make(); break;
-			}
-			check();
-		}
-		delete local; local = 0; delete own; own = 0;
-	}
-};
-
-static int C_RUNS, C_TUPLES, C_REPORTS;
-
-template <class H>
-static void handleJob(const std::vector<const Prog*>& progs, const std::string& kase, int reps) {
-	for (int r = 0; r < reps; r++) {
-		g_ctor = g_dtor = g_bad = 0; g_reports = 0; g_what[0] = 0;
-		__atomic_store_n(&g_go, 0, __ATOMIC_RELAXED);
-		int early = 0;
-		{
-			size_t n = progs.size();
-			H* h0 = new H(HK<H>::make());
-			std::vector<Worker<H>*> w(n);
-			for (size_t i = 0; i < n; i++) { w[i] = new Worker<H>(); w[i]->own = new H(*h0); w[i]->prog = progs[i]; }
-			for (size_t i = 0; i < n; i++) w[i]->start();
-			__atomic_store_n(&g_go, 1, __ATOMIC_RELAXED);
-			bool mainEarly = !HK<H>::alive(*h0);
-			delete h0;
-			for (size_t i = 0; i < n; i++) w[i]->join();
-			early = mainEarly ? 1 : 0;
-			for (size_t i = 0; i < n; i++) { early += w[i]->early; delete w[i]; }
-		}
-		vf::add(C_RUNS);
-		int live = g_ctor - g_dtor;
-		if (g_reports) { vf::add(C_REPORTS, g_reports); vf::violation("data_race", fmt("%s, programs [%s] free-running under ThreadSanitizer: %d report(s), first: %s", HK<H>::name(), kase.c_str(), (int)g_reports, g_what), kase); return; }
-		if (live != 0 && r == 0 && !g_bad && !early) continue; // a lazily built static of the container may be constructed during the first run in a process
-		if (live != 0 || g_bad || early) { vf::violation("handle_lifetime", fmt("%s, programs [%s] free-running: live=%d bad=%d early=%d", HK<H>::name(), kase.c_str(), live, (int)g_bad, early), kase); return; }
-	}
-}
-
-struct Counter { int v; Counter(int x = 0) : v(x) {}
-	Counter& operator+=(int d) { int t = v; sched_yield(); v = t + d; return *this; }
-	Counter& operator-=(int d) { int t = v; sched_yield(); v = t - d; return *this; }
-	Counter& operator*=(int d) { int t = v; sched_yield(); v = t * d; return *this; }
-	Counter& operator++() { return *this += 1; } Counter& operator--() { return *this -= 1; }
-	Counter operator++(int) { Counter c = *this; *this += 1; return c; } Counter operator--(int) { Counter c = *this; *this -= 1; return c; }
-	operator int() const { return v; } };
-struct CountWorker : public Thread {
-	AtomicCount* ac; Atomic<Counter>* at; const Prog* prog;
-	void run() {
-		for (int spin = 0; spin < 200000 && !__atomic_load_n(&g_go, __ATOMIC_RELAXED); spin++) {}
-		for (size_t i = 0; i < prog->size(); i++) {
-			int op = (*prog)[i];
-			if (ac) { if (op == 0) ++*ac; else --*ac; }
-			else { switch (op) { case 0: ++*at; break; case 1: --*at; break; case 2: *at += 3; break; case 3: *at -= 2; break; default: *at *= 1; } }
-		}
-	}
-};
-static void counterJob(bool atomicT, const std::vector<const Prog*>& progs, const std::string& kase, int reps) {
-	int expected = 10;
-	for (size_t i = 0; i < progs.size(); i++) for (size_t j = 0; j < progs[i]->size(); j++) { int op = (*progs[i])[j]; expected += atomicT ? (op == 0 ? 1 : op == 1 ? -1 : op == 2 ? 3 : op == 3 ? -2 : 0) : (op == 0 ? 1 : -1); }
-	for (int r = 0; r < reps; r++) {
-		g_reports = 0; g_what[0] = 0; __atomic_store_n(&g_go, 0, __ATOMIC_RELAXED);
-		int result;
-		{
-			AtomicCount ac(10); Atomic<Counter> at; at = Counter(10);
-			std::vector<CountWorker*> w(progs.size());
-			for (size_t i = 0; i < w.size(); i++) { w[i] = new CountWorker(); w[i]->ac = atomicT ? 0 : &ac; w[i]->at = atomicT ? &at : 0; w[i]->prog = progs[i]; }
-			for (size_t i = 0; i < w.size(); i++) w[i]->start();
-			__atomic_store_n(&g_go, 1, __ATOMIC_RELAXED);
-			for (size_t i = 0; i < w.size(); i++) { w[i]->join(); delete w[i]; }
-			result = atomicT ? (~at).v : (int)ac;
-		}
-		vf::add(C_RUNS);
-		if (g_reports) { vf::add(C_REPORTS, g_reports); vf::violation("data_race", fmt("%s programs [%s] free-running under ThreadSanitizer: %d report(s), first: %s", atomicT ? "Atomic<Counter>" : "AtomicCount", kase.c_str(), (int)g_reports, g_what), kase); return; }
-		if (result != expected) { vf::violation("lost_update", fmt("%s programs [%s] free-running: final value %d, expected %d", atomicT ? "Atomic<Counter>" : "AtomicCount", kase.c_str(), result, expected), kase); return; }
-	}
-}
-
-struct Job { int family; int kind; std::vector<int> prog; };
-static std::vector<Prog> HP, CP1, CP2;
-static std::string jobName(const Job& j) { std::string s = fmt("r%d.k%d", j.family, j.kind); for (size_t i = 0; i < j.prog.size(); i++) s += fmt(".%d", j.prog[i]); return s; }
-static void runJob(const Job& j, int reps) {
-	std::vector<const Prog*> ps;
-	const std::vector<Prog>& table = j.family == 0 ? HP : j.family == 1 ? CP1 : CP2;
-	for (size_t i = 0; i < j.prog.size(); i++) ps.push_back(&table[j.prog[i]]);
-	std::string desc;
-	for (size_t i = 0; i < ps.size(); i++) desc += fmt("%sT%d: ", i ? " || " : "", (int)i + 1) + (j.family == 0 ? progStr(*ps[i]) : vf::hist_str(vf::Hist(ps[i]->begin(), ps[i]->end())));
-	std::string kase = jobName(j);
-	vf::cur(kase + " " + desc);
-	vf::add(C_TUPLES);
-	if (j.family == 0) {
-		switch (j.kind) {
-		case 0: handleJob<Array<Tracked> >(ps, kase, reps); break;
-		case 1: handleJob<Map<int, Tracked> >(ps, kase, reps); break;
-		case 2: handleJob<HashMap<int, int> >(ps, kase, reps); break;
-		case 3: handleJob<Shared<Tracked> >(ps, kase, reps); break;
-		default: handleJob<Obj>(ps, kase, reps); break;
-		}
-	} else counterJob(j.family == 2, ps, kase, reps);
-}
-static void genCounterProgs(int nops, int maxLen, std::vector<Prog>& out) {
-	out.clear();
-	for (int len = 1; len <= maxLen; len++) { int n = 1; for (int i = 0; i < len; i++) n *= nops; for (int x = 0; x < n; x++) { Prog p; int y = x; for (int i = 0; i < len; i++) { p.push_back(y % nops); y /= nops; } out.push_back(p); } }
-}
-
-int main(int argc, char** argv) {
-	vf::init(argc, argv, "C12", "t_c12_race");
-	C_RUNS = vf::counter("tsan_executions"); C_TUPLES = vf::counter("tsan_program_tuples"); C_REPORTS = vf::counter("tsan_reports");
-	bool T = vf::opt.thorough();
-	int reps = T ? 5 : 2;
-	genProgs(T ? 3 : 2, true, false, Prog(), HP);
-	genCounterProgs(2, 2, CP1);
-	genCounterProgs(5, 2, CP2);
-	std::vector<Job> jobs;
-	for (int k = 0; k < 5; k++) for (size_t a = 0; a < HP.size(); a++) for (size_t b = a; b < HP.size(); b++) { Job j; j.family = 0; j.kind = k; j.prog.push_back((int)a); j.prog.push_back((int)b); jobs.push_back(j); }
-	for (size_t a = 0; a < CP1.size(); a++) for (size_t b = a; b < CP1.size(); b++) { Job j; j.family = 1; j.kind = 0; j.prog.push_back((int)a); j.prog.push_back((int)b); jobs.push_back(j); }
-	for (size_t a = 0; a < CP2.size(); a++) for (size_t b = a; b < CP2.size(); b++) { Job j; j.family = 2; j.kind = 0; j.prog.push_back((int)a); j.prog.push_back((int)b); jobs.push_back(j); }
-	if (vf::opt.replay) {
-		std::string k = vf::opt.kase; size_t sp = k.find(' '); if (sp != std::string::npos) k = k.substr(0, sp);
-		for (size_t i = 0; i < jobs.size(); i++) if (jobName(jobs[i]) == k) { vf::parallel(1, [&](uint64_t) { runJob(jobs[i], 20); }); break; }
-		return vf::finish();
-	}
-	vf::parallel(jobs.size(), [&](uint64_t i) { runJob(jobs[i], reps); }, 8);
-	vf::setinfo("role", "\"assumption check for the scheduler-based part: every program tuple free-running under ThreadSanitizer; not an exploration\"");
-	return vf::finish();
-}
+// C12 side pass (flavour tsan): the program tuples of s_c12_handles.cpp plus 16-thread contention runs, free-running under
+// ThreadSanitizer, with an in-run positive control. All code lives in s_c12_handles.cpp (section C12_RACE_PASS) so that the two
+// passes cannot drift apart: same handle kinds, same operations, same program tables, same sequential model.
+#define C12_RACE_PASS 1
+#include "s_c12_handles.cpp"
